@@ -118,8 +118,20 @@ func streamBuildorder(g *core.G) {
 		}
 		srcs := make([]src, k)
 		binOwner := map[string]int{}
+		// names as archives have them: hyphenated, one the prefix / suffix / concatenation of others
+		pool := []string{"qt", "creator", "plugins", "qt-creator", "creator-plugins", "qt-creator-plugins", "lib", "lib-qt", "qt-lib", "a", "a-a", "a-a-a"}
+		hyphen := r.Chance(1, 3)
+		if hyphen {
+			for j := len(pool) - 1; j > 0; j-- {
+				x := r.Intn(j + 1)
+				pool[j], pool[x] = pool[x], pool[j]
+			}
+		}
 		for j := range srcs {
 			srcs[j].name = fmt.Sprintf("src%d", j)
+			if hyphen && j < len(pool) {
+				srcs[j].name = pool[j]
+			}
 			for b := r.Range(1, 4); b > 0; b-- {
 				bn := fmt.Sprintf("bin%d-%d", j, b)
 				srcs[j].bins = append(srcs[j].bins, bn)
@@ -298,7 +310,7 @@ func init() {
 		ID: "C19", PropsModule: "GoDebian.Props.C19",
 		Facts: []string{"fingerprint:control.OrderDSCForBuild", "fingerprint:control.ParseDsc", "fingerprint:dependency.Dependency.GetPossibilities", "fingerprint:control.decodeStructValueSlice"},
 		Streams: []core.Stream{{Name: "buildorder", Gen: streamBuildorder,
-			Domain: "random build-dependency graphs over 1-12 sources with 1-4 binaries each (with Package-List fields incl. arch=all and restricted binaries), build architectures incl. non-GNU ABIs (musl-linux-amd64, uclibc-linux-armel), wildcard restrictions (linux-any, any-<cpu>, !linux-any, kfreebsd-any), acyclic (3/4) and possibly cyclic (1/4), relations of 1-3 alternatives with architecture restrictions ([arch], [!arch], [other]), multiarch qualifiers (:native, :any, :<this arch>, :<other arch>), build profiles, version clauses, substvars and packages no source provides, spread over Build-Depends / -Arch / -Indep, rendered as multi-binary .dsc text (single-line and folded Binary and dependency fields) in shuffled order and parsed by the real ParseDsc; model vs OrderDSCForBuild (three runs each); law-order: graph-level oracle (permutation, every needed source earlier, cycle <=> error)"}},
+			Domain: "random build-dependency graphs over 1-12 sources with 1-4 binaries each (with Package-List fields incl. arch=all and restricted binaries), build architectures incl. non-GNU ABIs (musl-linux-amd64, uclibc-linux-armel), wildcard restrictions (linux-any, any-<cpu>, !linux-any, kfreebsd-any), acyclic (3/4) and possibly cyclic (1/4), relations of 1-3 alternatives with architecture restrictions ([arch], [!arch], [other]), multiarch qualifiers (:native, :any, :<this arch>, :<other arch>), build profiles, version clauses, substvars and packages no source provides, spread over Build-Depends / -Arch / -Indep, source names incl. hyphenated ones that are prefixes / suffixes / concatenations of each other, rendered as multi-binary .dsc text (single-line and folded Binary and dependency fields) in shuffled order and parsed by the real ParseDsc; model vs OrderDSCForBuild (three runs each); law-order: graph-level oracle (permutation, every needed source earlier, cycle <=> error)"}},
 		Impl: buildOrderImpl, TrustedBase: tb,
 		Readable: func(op string, a []string) string {
 			return op + " arch=" + core.MustUnHex(a[0]) + " " + clipStr(strings.Join(a[1:], " "), 160)
